@@ -30,12 +30,17 @@ void messageq_init(messageq_t *mq, void *basep, size_t base_len, size_t msg_len)
 
 void *messageq_claim(messageq_t *mq)
 {
-	/* get permission to allocate a message */
-	int num_free = atomic_fetch_sub(&mq->num_free, 1);
-	if (num_free <= 0) {
-		atomic_fetch_add(&mq->num_free, 1);
-		return NULL;
-	}
+	/* get permission to allocate a message; the count must never be
+	 * decremented below zero, not even transiently, because it is
+	 * unsigned and a concurrent claim would mistake the wrapped value
+	 * for 255 free messages
+	 */
+	unsigned char num_free = atomic_load(&mq->num_free);
+	do {
+		if (0 == num_free)
+			return NULL;
+	} while (!atomic_compare_exchange_weak(&mq->num_free, &num_free,
+					       num_free - 1));
 
 	/* find out the address that will be allocated */
 	unsigned char sendp = atomic_load(&mq->sendp);
